@@ -3023,7 +3023,8 @@ class Run:
                 if src != cur:
                     # rollback of a transaction that had inserted the object: the transaction still counts an object that was expunged
                     # meanwhile as its own and sends it to transient, announcing that from the state it last had *in* the session
-                    if rolled_back and cur == "detached" and name == "persistent_to_transient":
+                    # (same for an object that was expunged from the 'deleted' state: it is announced with deleted_to_detached)
+                    if rolled_back and cur == "detached" and name in ("persistent_to_transient", "deleted_to_detached"):
                         cur = dst
                         continue
                     ok = False
